@@ -19,10 +19,17 @@ from ..impl import walk
 EXTS = ['wowsreplay', 'wotreplay', 'wowpreplay']
 
 
-def tmpfile(name):
-    d = os.path.join(common.WORK, 'c01-%d' % os.getpid())
+_MAIN_PID = os.getpid()        # forked pool workers inherit it: one scratch directory per run, removed at the end of run()
+
+
+def run_dir():
+    d = os.path.join(common.WORK, 'c01-%d' % _MAIN_PID)
     os.makedirs(d, exist_ok=True)
-    return os.path.join(d, name)
+    return d
+
+
+def tmpfile(name):
+    return os.path.join(run_dir(), '%d-%s' % (os.getpid(), name))
 
 
 def gen_case(rng, i):
@@ -161,12 +168,10 @@ def _rewrap(args):
     raw_engine = json.dumps(info.engine_data, ensure_ascii=False).encode('utf-8')
     extras = [json.dumps(e, ensure_ascii=False).encode('utf-8') if e is not None else b'' for e in info.extra_data]
     data = container.write_container(ext, raw_engine, extras, info.decrypted_data, level=rng.randint(0, 9), prefix=rng.randbytes(8))
-    d = os.path.join(common.WORK, 'c01-%d' % os.getpid())
-    os.makedirs(d, exist_ok=True)
-    out = os.path.join(d, 'rewrapped.' + ext)
+    out = tmpfile('rewrapped.' + ext)
     with open(out, 'wb') as f:
         f.write(data)
-    dump = os.path.join(d, 'dump.bin')
+    dump = tmpfile('dump.bin')
     res = {'path': path, 'problems': []}
     try:
         again = ReplayReader(out).get_replay_data()
@@ -226,7 +231,7 @@ def run(chk, drv):
     part_malformed(chk, drv)
     part_recordings(chk, 6 if quick else 1000)
     import shutil
-    shutil.rmtree(os.path.join(common.WORK, 'c01-%d' % os.getpid()), ignore_errors=True)
+    shutil.rmtree(run_dir(), ignore_errors=True)
     chk.assumptions += ['Blowfish (Cryptodome) and zlib are external: the theorem assumes D(E(b)) = b on 8-byte blocks and inflate(deflate(s)+pad) = s',
                         'json.loads is external (blocks stay raw bytes in the model)']
 
